@@ -3,6 +3,7 @@
 package nodeimpl
 
 import (
+	"encoding/json"
 	"fmt"
 	"io/ioutil"
 	"os"
@@ -127,7 +128,8 @@ func (im *Impl) tear(doIt bool) bool {
 		if strings.HasPrefix(l, "#HEIGHT:") {
 			marker = i
 		}
-		if strings.Contains(l, "\"msg\":[2,") || strings.Contains(l, "\"msg\":[3,") {
+		// an intact input record (a fragment left by an earlier tear is not one)
+		if (strings.Contains(l, "\"msg\":[2,") || strings.Contains(l, "\"msg\":[3,")) && json.Valid([]byte(strings.TrimSpace(l))) {
 			last, lastOff = i, off
 		}
 		off += len(l)
@@ -144,8 +146,7 @@ func (im *Impl) tear(doIt bool) bool {
 
 // ResetAfterRestart: the chain object was rebuilt (new ticker, new ConsensusState)
 func (im *Impl) ResetAfterRestart() {
-	im.nSched = 0
-	im.lastH = im.C.CS.GetRoundState().Height
+	im.nSched = 0 // lastH stays: a replay that commits the height shows up as COMMIT in the digest
 }
 
 func (im *Impl) Digest() string {
@@ -303,6 +304,9 @@ func (im *Impl) Exec(line string) string {
 				}
 			}
 			im.C.Restart()
+			if err := im.C.CS.VerifStartPreamble(); err != nil { // what OnStart does first
+				im.ReplayErr = err.Error()
+			}
 			if err := im.C.CS.VerifCatchupReplay(); err != nil {
 				im.ReplayErr = err.Error()
 				if os.Getenv("VERIF_DEBUG") != "" {
@@ -364,6 +368,13 @@ func (im *Impl) Exec(line string) string {
 				}
 			}
 			return strings.Join(seen, " ") + " || " + im.Digest()
+		case "rotate":
+			// the group's ticker rotates only a head that outgrew its limit: never an empty one
+			if fi, err := os.Stat(filepath.Join(im.C.Dir, "wal", "wal")); err != nil || fi.Size() == 0 {
+				return "ok"
+			}
+			im.C.CS.VerifRotateWAL()
+			return "ok"
 		case "votes":
 			return im.Votes()
 		case "digest":
